@@ -54,6 +54,7 @@ func runC06(c *Ctx) {
 	c.c06MoveFolderEntries()
 	c.c06MissingSourceFirst()
 	c.c06RelativeContainment()
+	c.c06MoveBetweenKeepsItsSource()
 }
 
 // c06Overlap: "a copy never changes its source, also when source and destination overlap" / "a call terminates".
@@ -1229,8 +1230,8 @@ func (c *Ctx) c06MoveFolderEntries() {
 // as such whatever the destination — the source itself included. In the move and the copy workers, a return that is
 // justified by the two paths being equal comes after the source was looked for.
 func (c *Ctx) c06MissingSourceFirst() {
-	c.rule("Z13", "move / copy: a successful return justified by source and destination being the same path is preceded by the test that the source exists", 3)
-	for _, name := range []string{"(*VFS).MoveWithContext", "CopyBetweenFSWithExclusionRegexes"} {
+	c.rule("Z13", "move / copy: a successful return justified by source and destination being the same path is preceded by the test that the source exists", 4)
+	for _, name := range []string{"(*VFS).MoveWithContext", "CopyBetweenFSWithExclusionRegexes", "MoveBetweenFS"} {
 		f := c.fn(fsPkgRel, name)
 		if f == nil {
 			continue
@@ -1264,6 +1265,16 @@ func (c *Ctx) c06MissingSourceFirst() {
 			var r *ssa.Return
 			for _, rb := range f.Blocks {
 				if x, isR := rb.Instrs[len(rb.Instrs)-1].(*ssa.Return); isR && edgeDominates(b, 0, rb) && !isErrorExit(f, x) {
+					r = x
+				}
+			}
+			if r == nil {
+				// the return reached straight from the equal side (it may be shared: `a == b || alreadyThere(a, b)`)
+				nb := b.Succs[0]
+				for steps := 0; steps < 20 && len(nb.Succs) == 1; steps++ {
+					nb = nb.Succs[0]
+				}
+				if x, isR := nb.Instrs[len(nb.Instrs)-1].(*ssa.Return); isR && !isErrorExit(f, x) {
 					r = x
 				}
 			}
@@ -1330,4 +1341,67 @@ func (c *Ctx) c06RelativeContainment() {
 	if n == 0 {
 		c.info("Z14", fsPkgRel+"/no-bare-two-dots-prefix-test", "-", "no HasPrefix(rel, \"..\") on a filepath.Rel result")
 	}
+}
+
+// c06MoveBetweenKeepsItsSource (Z15): MoveBetweenFS is a copy followed by the removal of the source. The copy does nothing
+// when source and destination are the same object (its own guards compare cleaned paths, Z5) — the removal must then not
+// happen either: on the same filesystem it is only reachable where the cleaned paths were compared and found different.
+func (c *Ctx) c06MoveBetweenKeepsItsSource() {
+	c.rule("Z15", "MoveBetweenFS removes its source only where, on one filesystem, the cleaned source and destination were found to differ: what is moved onto another spelling of itself is not deleted", 1)
+	f := c.fn(fsPkgRel, "MoveBetweenFS")
+	if f == nil {
+		return
+	}
+	c.FuncsSeen[fname(f)] = true
+	si, di := paramIndexByName(f, "src"), paramIndexByName(f, "dest")
+	if si < 0 || di < 0 {
+		c.undecided("Z15", fname(f)+"/source-kept", c.pos(f.Pos()), "parameters src / dest not found")
+		return
+	}
+	cleanedFrom := func(v ssa.Value, p *ssa.Parameter) bool {
+		cl, ok := stripConv(v).(*ssa.Call)
+		return ok && calleeFull(&cl.Call) == "path/filepath.Clean" && resolveValue(cl.Call.Args[0]) == ssa.Value(p)
+	}
+	var removal ssa.Instruction
+	allInstrs(f, func(in ssa.Instruction) {
+		if cl, ok := in.(*ssa.Call); ok {
+			if nm, args, ok := fsMethodCall(cl); ok && (strings.HasPrefix(nm, "Remove") || nm == "Rm") {
+				for _, a := range args {
+					if a.Type().String() == "string" && resolveValue(a) == ssa.Value(f.Params[si]) {
+						removal = cl
+					}
+				}
+			}
+		}
+	})
+	if removal == nil {
+		c.info("Z15", fname(f)+"/source-kept", c.pos(f.Pos()), "MoveBetweenFS does not remove its source itself")
+		return
+	}
+	prune := func(b *ssa.BasicBlock, k int) bool {
+		ifi, ok := b.Instrs[len(b.Instrs)-1].(*ssa.If)
+		if !ok {
+			return false
+		}
+		bo, ok := ifi.Cond.(*ssa.BinOp)
+		if !ok || (bo.Op != token.EQL && bo.Op != token.NEQ) {
+			return false
+		}
+		differ := 1 // successor taken when the operands differ
+		if bo.Op == token.NEQ {
+			differ = 0
+		}
+		// cleaned paths found different
+		if (cleanedFrom(bo.X, f.Params[si]) && cleanedFrom(bo.Y, f.Params[di])) || (cleanedFrom(bo.X, f.Params[di]) && cleanedFrom(bo.Y, f.Params[si])) {
+			return k == differ
+		}
+		// two different filesystem objects
+		if strings.HasSuffix(bo.X.Type().String(), "filesystem.FS") && strings.HasSuffix(bo.Y.Type().String(), "filesystem.FS") {
+			return k == differ
+		}
+		return false
+	}
+	hit := pathPruned(f, nil, func(ssa.Instruction) bool { return false }, func(in ssa.Instruction) bool { return in == removal }, prune)
+	c.check(hit == nil, "Z15", fname(f)+"/source-kept", c.ipos(removal), "the source is removed only where the cleaned paths differ (or the filesystems do)",
+		"the removal of the source can be reached without the cleaned source and destination having been found different: for `dir/f` moved to `dir/./f` the copy has nothing to do (same object) and the removal deletes the only copy — the call returns nil and the file is gone")
 }
